@@ -123,7 +123,7 @@ func caseUnambiguous(ranges []accept.Range, offers []string, media bool) bool {
 // judgedParse is the strict parse of the header when header and offers are inside the lower-case grammar, else
 // the mixed-case reading when that applies; why != "" = not judged.
 func judgedParse(lines, offers []string, media bool) (p accept.Parsed, mixed bool, why string) {
-	p = accept.ParseStrict(lines, media)
+	p = parseStrict(lines, media)
 	switch {
 	case !p.Judged:
 		why = p.Why
@@ -289,7 +289,7 @@ var manyCounts = []int{9, 17, 33, 65}
 // genManyRanges builds a header of 9, 17, 33, 65 or 257 ranges (on one line, or spread over 5-40 field lines when
 // spread is set; then the count may also be small). In half of them every range but the last names a type nobody
 // offers, and the last one is the only acceptable range: the place where a client writes its "*/*;q=0.1" fallback.
-func genManyRanges(r *rand.Rand, types []string, spread bool) []string {
+func genManyRanges(r *rand.Rand, types []string, spread bool, raise func(accept.Header)) []string {
 	n := manyCounts[r.Intn(len(manyCounts))]
 	if r.Intn(50) == 0 {
 		n = 257 // rare: the reference compares the q-values pairwise
@@ -355,6 +355,9 @@ func genManyRanges(r *rand.Rand, types []string, spread bool) []string {
 			}
 		}
 	}
+	if raise != nil {
+		raise(h) // q-values above 1 (the ranges are shared with rs: rewritten in place)
+	}
 	return h.Render(accept.OWS(r))
 }
 
@@ -365,7 +368,7 @@ func preShrinkLong(lines []string, offers []string, media bool, fails func(lines
 	if countRanges(lines) <= 12 {
 		return lines
 	}
-	p := accept.ParseStrict(lines, media)
+	p := parseStrict(lines, media)
 	if !p.Judged || len(p.Ranges) <= 12 {
 		return lines
 	}
